@@ -345,6 +345,7 @@ func (c *Conn) run(kind, sqlText string, args []interface{}, binary bool) (*resu
 	} else {
 		je.Affected, je.LastID, je.NRows = res.affected, res.lastID, len(res.rows)
 		je.StmtWrites = netWrites(res.writes)
+		je.Notes = res.notes
 		if res.isQuery && je.Class == "meta" {
 			je.Seq = s.logq("DB c%d %s %s%s -> %d row(s)", c.id, kind, oneLine(sqlText), fmtArgs(args), len(res.rows))
 		} else if res.isQuery {
@@ -523,6 +524,10 @@ func (c *Conn) execNode(n ast.StmtNode, args []interface{}, je *JEntry) (*result
 	auto := false
 	if c.txn == nil {
 		c.txn = s.newTxn(c, false)
+		auto = true
+	} else if !c.txn.explicit && c.txn.xaState == "" {
+		// the implicit transaction of an auto-commit statement that had to wait
+		// for a lock and is being retried: it still ends with the statement
 		auto = true
 	}
 	nlocks := len(c.txn.locks)
